@@ -242,6 +242,8 @@ def _step(s: Store, op: dict, exc_log: list):
         if name == "fill":
             h = s.get(op["h"])
             v = fl(op["v"])
+            if op.get("vk") and v is not None:      # the value as a numpy scalar of that type (exactly representable)
+                v = np.dtype(op["vk"]).type(v)
             w = num_of(op["w"], op["wk"])
             if op["wk"] == "pyint" and w == 1 and op.get("default_w"):
                 ix = h.fill(v)
@@ -252,10 +254,15 @@ def _step(s: Store, op: dict, exc_log: list):
             return fb_json(ix, h)
         if name == "find_bin":
             h = s.get(op["h"])
-            return fb_json(h.find_bin(fl(op["v"])), h)
+            v = fl(op["v"])
+            if op.get("vk") and v is not None:
+                v = np.dtype(op["vk"]).type(v)
+            return fb_json(h.find_bin(v), h)
         if name == "fill_n":
             h = s.get(op["h"])
             vs = arr(op["vs"], shape=op.get("shape"))
+            if op.get("vk"):                        # a float32 / float16 / integer data array (values exactly representable)
+                vs = vs.astype(np.dtype(op["vk"]))
             if op.get("container") == "list":
                 vs = vs.tolist()
             ws = op.get("ws")
@@ -392,6 +399,14 @@ def _step(s: Store, op: dict, exc_log: list):
                 h.dtype = op["dtype"]
             else:
                 h.set_dtype(op["dtype"])
+            return "ok"
+        if name in ("set_freq", "set_err2"):
+            h = s.get(op["h"])
+            assigned = np.array([float(Fraction(x)) for x in op["vals"]], dtype=np.dtype(op["k"]))
+            if name == "set_freq":
+                h.frequencies = assigned
+            else:
+                h.errors2 = assigned
             return "ok"
         if name == "copy":
             s.set(op["out"], s.get(op["h"]).copy(include_frequencies=op.get("with_freq", True)))
